@@ -17,14 +17,29 @@ import time
 from concurrent.futures import ThreadPoolExecutor
 
 VERIF = os.path.dirname(os.path.dirname(os.path.abspath(__file__)))
-REPO = os.environ.get("VERIF_REPO", "/repo")
+REPO = os.path.realpath(os.environ.get("VERIF_REPO", "/repo"))
 WORK = os.path.join(VERIF, ".work")
-COQ = os.path.join(VERIF, "coq")
-HARNESS = os.path.join(VERIF, "harness")
-TARGET = os.path.join(WORK, "target")
-EVID = os.path.join(VERIF, "evidence")
-REPLAYS = os.path.join(VERIF, "replays")
 NCPU = os.cpu_count() or 4
+ALT = REPO != "/repo"
+if not ALT:
+    # the registered checks: /repo itself, evidence and replays under /verif
+    COQ = os.path.join(VERIF, "coq")
+    TARGET = os.path.join(WORK, "target")
+    EVID = os.path.join(VERIF, "evidence")
+    REPLAYS = os.path.join(VERIF, "replays")
+    LOCKS = WORK
+else:
+    # development aid (seeded-change experiments): VERIF_REPO=<scratch worktree> runs the same check
+    # against another tree in complete isolation: own cargo target dir, own copy of the Coq tree
+    # (translators write Generated/*.v), own evidence/replays.  Never used by a registered command.
+    _tag = re.sub(r"[^A-Za-z0-9]+", "_", REPO).strip("_")
+    WORKALT = os.path.join(WORK, "alt", _tag)
+    COQ = os.path.join(WORKALT, "coq")
+    TARGET = os.path.join(WORKALT, "target")
+    EVID = os.path.join(WORKALT, "evidence")
+    REPLAYS = os.path.join(WORKALT, "replays")
+    LOCKS = WORKALT
+HARNESS = os.path.join(VERIF, "harness")
 
 GUARD_CFG = "--cfg veryl_verif"
 
@@ -45,9 +60,20 @@ AXIOM_ALLOW = {
 }
 
 
+_alt_ready = [False]
+
+
 def ensure_dirs():
     for d in (WORK, EVID, REPLAYS, os.path.join(WORK, "cases"), os.path.join(WORK, "scratch")):
         os.makedirs(d, exist_ok=True)
+    if ALT and not _alt_ready[0]:
+        _alt_ready[0] = True
+        os.makedirs(WORKALT, exist_ok=True)
+        # copy of the Coq tree (sources + compiled files, timestamps kept so make rebuilds nothing)
+        subprocess.run(["rsync", "-a", os.path.join(VERIF, "coq") + "/", COQ + "/"], check=True)
+        # seed the cargo target dir with the registry crates already compiled for /repo
+        if not os.path.exists(TARGET) and os.path.exists(os.path.join(WORK, "target")):
+            subprocess.run(["cp", "-a", os.path.join(WORK, "target"), TARGET], check=True)
 
 
 def sh(cmd, timeout=None, cwd=None, env=None, inp=None):
@@ -71,7 +97,7 @@ def sh(cmd, timeout=None, cwd=None, env=None, inp=None):
 class FileLock:
     def __init__(self, name):
         ensure_dirs()
-        self.path = os.path.join(WORK, name + ".lock")
+        self.path = os.path.join(LOCKS, name + ".lock")
 
     def __enter__(self):
         self.f = open(self.path, "w")
@@ -85,10 +111,28 @@ class FileLock:
 
 # ------------------------------------------------------------------------------------ Coq
 
+def coq_project_files():
+    out = []
+    for root, dirs, files in os.walk(COQ):
+        dirs[:] = [d for d in dirs if not d.startswith(".")]
+        for f in files:
+            if f.endswith(".v") and not f.startswith("."):
+                out.append(os.path.relpath(os.path.join(root, f), COQ))
+    return sorted(out)
+
+
 def coq_makefile():
+    """_CoqProject is regenerated from the directory listing (every coq/**/*.v), so adding a file
+    needs no edit; Makefile.coq is regenerated when the list changes."""
     mk = os.path.join(COQ, "Makefile.coq")
     proj = os.path.join(COQ, "_CoqProject")
-    if (not os.path.exists(mk)) or os.path.getmtime(mk) < os.path.getmtime(proj):
+    want = ("-Q . VV\n-arg -w -arg -notation-overridden,-deprecated-hint-without-locality,"
+            "-deprecated-instance-without-locality\n" + "\n".join(coq_project_files()) + "\n")
+    have = open(proj).read() if os.path.exists(proj) else ""
+    if want != have:
+        with open(proj, "w") as f:
+            f.write(want)
+    if (not os.path.exists(mk)) or want != have or os.path.getmtime(mk) < os.path.getmtime(proj):
         rc, o, e = sh(["coq_makefile", "-f", "_CoqProject", "-o", "Makefile.coq"], cwd=COQ, timeout=120)
         if rc != 0:
             raise RuntimeError("coq_makefile failed: " + o + e)
@@ -310,15 +354,43 @@ def cstr(codepoints):
 
 # ------------------------------------------------------------------------------------ harness
 
-def harness_build(pkg, release=False, features=None, timeout=3000, extra_cfg=True):
-    """cargo build of a harness package against /repo's working tree. Returns (ok, binary, log)."""
+def harness_dir(pkg):
+    """package vh-foo lives in harness/foo (a standalone cargo workspace of its own).  For an
+    alternative tree (VERIF_REPO) the package is copied with its /repo paths rewritten."""
+    name = pkg[3:] if pkg.startswith("vh-") else pkg
+    src = os.path.join(HARNESS, name)
+    if not ALT:
+        return src
+    dst = os.path.join(WORKALT, "harness", name)
+    os.makedirs(os.path.dirname(dst), exist_ok=True)
+    subprocess.run(["rsync", "-a", "--delete", "--exclude", "Cargo.lock", src + "/", dst + "/"], check=True)
+    for root, _, files in os.walk(dst):
+        for f in files:
+            if f == "Cargo.toml" or f.endswith(".rs"):
+                pth = os.path.join(root, f)
+                s = open(pth).read()
+                s2 = s.replace('"/repo/', '"' + REPO + '/')
+                if s2 != s:
+                    open(pth, "w").write(s2)
+    cfg = os.path.join(WORKALT, "harness", ".cargo")
+    os.makedirs(cfg, exist_ok=True)
+    open(os.path.join(cfg, "config.toml"), "w").write("[net]\noffline = true\n")
+    return dst
+
+
+def harness_build(pkg, release=False, features=None, timeout=3000, extra_cfg=True, bin_name=None):
+    """cargo build of a harness package against /repo's working tree. Returns (ok, binary, log).
+    Each package is its own workspace (harness/<name>/Cargo.toml with an empty [workspace]);
+    Cargo.lock is copied from /repo so that only vendored/cached crate versions are used; all
+    packages share one target dir (.work/target) so /repo crates are compiled once."""
     ensure_dirs()
+    d = harness_dir(pkg)
     with FileLock("cargo"):
         lock_src = os.path.join(REPO, "Cargo.lock")
-        lock_dst = os.path.join(HARNESS, "Cargo.lock")
+        lock_dst = os.path.join(d, "Cargo.lock")
         if os.path.exists(lock_src) and not os.path.exists(lock_dst):
             shutil.copy(lock_src, lock_dst)
-        cmd = ["cargo", "build", "--offline", "-p", pkg]
+        cmd = ["cargo", "build", "--offline"]
         if release:
             cmd.append("--release")
         if features:
@@ -326,12 +398,82 @@ def harness_build(pkg, release=False, features=None, timeout=3000, extra_cfg=Tru
         env = {"CARGO_TARGET_DIR": TARGET, "CARGO_NET_OFFLINE": "true"}
         if extra_cfg:
             env["RUSTFLAGS"] = GUARD_CFG
-        rc, o, e = sh(cmd, cwd=HARNESS, env=env, timeout=timeout)
-        if rc != 0 and "lock file" in e and os.path.exists(lock_src):
+        rc, o, e = sh(cmd, cwd=d, env=env, timeout=timeout)
+        if rc != 0 and ("lock file" in e or "Cargo.lock" in e) and os.path.exists(lock_src):
             shutil.copy(lock_src, lock_dst)
-            rc, o, e = sh(cmd, cwd=HARNESS, env=env, timeout=timeout)
-    binp = os.path.join(TARGET, "release" if release else "debug", pkg)
+            rc, o, e = sh(cmd, cwd=d, env=env, timeout=timeout)
+    binp = os.path.join(TARGET, "release" if release else "debug", bin_name or pkg)
     return rc == 0, binp, o + e
+
+
+def cli_build(release=False, timeout=3600, bins=("veryl",)):
+    """Build the real `veryl` CLI (and optionally veryl-ls) from /repo's working tree with hooks on,
+    into the shared target dir.  Returns (ok, {bin: path}, log)."""
+    ensure_dirs()
+    with FileLock("cargo"):
+        cmd = ["cargo", "build", "--offline"]
+        for b in bins:
+            cmd += ["-p", "veryl-ls" if b == "veryl-ls" else "veryl", "--bin", b]
+        if release:
+            cmd.append("--release")
+        env = {"CARGO_TARGET_DIR": TARGET, "CARGO_NET_OFFLINE": "true", "RUSTFLAGS": GUARD_CFG}
+        rc, o, e = sh(cmd, cwd=REPO, env=env, timeout=timeout)
+    d = os.path.join(TARGET, "release" if release else "debug")
+    return rc == 0, {b: os.path.join(d, b) for b in bins}, o + e
+
+
+def scratch_dir(tag):
+    """fresh scratch directory under .work/scratch (never /tmp); caller removes it with shutil.rmtree"""
+    ensure_dirs()
+    import tempfile
+    return tempfile.mkdtemp(prefix=tag + "_", dir=os.path.join(WORK, "scratch"))
+
+
+def ocaml_build(name, extract_v, driver_ml, timeout=900):
+    """Extract a model to OCaml and build a driver.  extract_v: text of a .v file that Requires the
+    development, `Require Extraction. Require Import ExtrOcamlBasic.` and ends with
+    `Extraction "<name>_model.ml" f g h.` (written relative to the scratch dir); driver_ml: OCaml
+    source using module <Name>_model.  Cached by content hash.  Returns (ok, binary, log)."""
+    ensure_dirs()
+    h = hashlib.sha256((extract_v + "\0" + driver_ml).encode()).hexdigest()[:16]
+    d = os.path.join(WORK, "ocaml", name)
+    binp = os.path.join(d, name + ".exe")
+    stamp = os.path.join(d, "stamp")
+    # the extracted code depends on the compiled development too: include mtimes of .vo deps is
+    # overkill; callers rebuild the Coq targets first and pass text that names them, so hash the
+    # .v sources the extraction file requires
+    deps = ""
+    for m in re.finditer(r"From\s+VV\s+Require\s+(?:Import\s+|Export\s+)?([^.]*(?:\.[A-Za-z_][\w.]*)*)\.", extract_v):
+        for mod in m.group(1).split():
+            for f in coq_deps_of(mod.replace(".", "/") + ".v"):
+                deps += hashlib.sha256(open(os.path.join(COQ, f), "rb").read()).hexdigest()
+    h = hashlib.sha256((h + deps).encode()).hexdigest()[:16]
+    with FileLock("ocaml_" + name):
+        if os.path.exists(binp) and os.path.exists(stamp) and open(stamp).read() == h:
+            return True, binp, "cached"
+        shutil.rmtree(d, ignore_errors=True)
+        os.makedirs(d)
+        with open(os.path.join(d, "extract.v"), "w") as f:
+            f.write(extract_v)
+        rc, o, e = sh(["coqc", "-noglob", "-Q", COQ, "VV", "-w", "-all", "extract.v"], cwd=d, timeout=timeout)
+        if rc != 0:
+            return False, binp, o + e
+        with open(os.path.join(d, "driver.ml"), "w") as f:
+            f.write(driver_ml)
+        mls = sorted(x for x in os.listdir(d) if x.endswith("_model.ml"))
+        for x in os.listdir(d):
+            if x.endswith(".mli"):
+                os.remove(os.path.join(d, x))
+        rc, o2, e2 = sh(["ocamlfind", "ocamlopt", "-O2", "-w", "-a", "-package", "str", "-linkpkg"] + mls +
+                        ["driver.ml", "-o", binp], cwd=d, timeout=timeout)
+        if rc != 0:
+            rc, o2, e2 = sh(["ocamlfind", "ocamlopt", "-w", "-a", "-package", "str", "-linkpkg"] + mls +
+                            ["driver.ml", "-o", binp], cwd=d, timeout=timeout)
+        if rc != 0:
+            return False, binp, o + e + o2 + e2
+        with open(stamp, "w") as f:
+            f.write(h)
+    return True, binp, o + e + o2 + e2
 
 
 def run_lines(binary, lines, args=(), timeout=600, env=None, nshards=None):
